@@ -17,7 +17,7 @@ import (
 
 type kindEval struct {
 	info   *types.Info
-	basic  types.Object            // the variable bound to the *types.Basic
+	basic  types.Object              // the variable bound to the *types.Basic
 	locals map[types.Object]ast.Expr // single-assignment locals of the arm (kind := t.Kind())
 	k      *types.Basic
 }
